@@ -827,6 +827,16 @@ def filter_fields(toks, keep, fired):
                     k += 1
                     continue
                 seg2.append(t); k += 1
+            # visibility widened to `pub` (Verus: pub open spec fns may only read pub fields); stated drop
+            f0 = next_code(seg2, 0)
+            if seg2[f0].kind == "ident" and seg2[f0].text == "pub":
+                f1 = next_code(seg2, f0 + 1)
+                if seg2[f1].text == "(":
+                    seg2 = seg2[:f1] + seg2[match_close(seg2, f1) + 1:]
+                    fired["vis_pub"] = fired.get("vis_pub", 0) + 1
+            else:
+                seg2 = seg2[:f0] + [S("pub"), S(" ", "ws")] + seg2[f0:]
+                fired["vis_pub"] = fired.get("vis_pub", 0) + 1
             out += seg2 + [S(",")]
         else:
             fired.setdefault("dropped_fields", []).append(nm)
@@ -939,7 +949,7 @@ def render_item(unit, kind, opts, sections):
         if derive:
             pre = S_OPEN + "#[derive(%s)]\n" % derive + S_CLOSE
         emitted = pre + text
-    elif kind == "const":
+    elif kind in ("const", "type"):
         item = apply_rules(item, rules, fired)
         ruled = item
         emitted = untok(item)
@@ -981,6 +991,7 @@ def render_trait(item, opts, sections, rules, fired):
     head = item[:bo]
     # drop generic T and where on the trait header if R1
     keep = [k for k in opts.get("keep", "").split(",") if k]
+    keep_none = opts.get("keep") == "-"
     body = []
     i = bo + 1
     seen = set()
@@ -991,11 +1002,15 @@ def render_trait(item, opts, sections, rules, fired):
             while item[j].text != ";":
                 j += 1
             seg = item[i:j + 1]
-            # R9: drop bounds
+            # R9: drop bounds (except the acyclic ones named in assoc="SE:Settings;..")
             col = [k for k, x in enumerate(seg) if x.kind == "punct" and x.text == ":"]
+            tname = seg[next_code(seg, 1)].text
+            keepb = dict(x.split(":") for x in opts.get("assoc", "").split(";") if x)
             if col:
                 seg = seg[:col[0]] + [seg[-1]]
                 fired["R9"] = fired.get("R9", 0) + 1
+            if tname in keepb:
+                seg = seg[:-1] + bracket(": " + keepb[tname]) + [seg[-1]]
             body += [S("\n    ", "ws")] + seg
             i = j + 1
             continue
@@ -1011,7 +1026,7 @@ def render_trait(item, opts, sections, rules, fired):
                 elif item[j].kind == "punct" and item[j].text == ";":
                     break
                 j += 1
-            if not keep or nm in keep:
+            if (not keep or nm in keep) and not keep_none:
                 seg = item[seg_start:j + 1]
                 seg = apply_rules(seg, [r for r in rules if r != "R12"], fired)
                 sec = {}
@@ -1031,9 +1046,11 @@ def render_trait(item, opts, sections, rules, fired):
             i = j + 1
             continue
         i += 1
-    missing = [k for k in keep if k not in seen]
+    missing = [k for k in keep if k not in seen and k != "-"]
     if missing:
         raise ExtractError(f"lost anchor: trait methods {missing} not found")
+    if "extra" in sections:
+        body = [S("\n    ", "ws")] + bracket(sections["extra"]) + body
     head = apply_rules(head, [r for r in rules if r not in ("R12", "R1")], fired)
     if opts.get("header"):
         head = synth(opts["header"] + " ")
